@@ -20,6 +20,8 @@ use fastrace::collector::Reporter;
 use fastrace::prelude::*;
 
 thread_local! {
+    /// executor-like polling: the caller's local parent is set anew around every poll
+    static PER_POLL_PARENT: RefCell<Option<std::sync::Arc<Span>>> = const { RefCell::new(None) };
     static LOG: RefCell<Vec<String>> = const { RefCell::new(Vec::new()) };
     static NAME: RefCell<Vec<String>> = const { RefCell::new(Vec::new()) };
 }
@@ -148,6 +150,8 @@ twin!(#[fastrace::trace()] async fn aearly_p / aearly_t (a: u32, y: u32) -> u32 
 twin!(#[fastrace::trace()] async fn amoves_p / amoves_t (a: u32, y: u32, s: String) -> String { here!(); YieldN(y).await; format!("{s}{a}") });
 twin!(#[fastrace::trace()] async fn aborrow_p / aborrow_t<'a> (a: u32, y: u32, s: &'a mut Vec<u32>) -> usize { here!(); s.push(a); YieldN(y).await; s.push(a); s.len() });
 twin!(#[fastrace::trace()] async fn agen_p / agen_t<T: Clone + Send + 'static> (a: u32, y: u32, t: T) -> (u32, T) { here!(); YieldN(y).await; (a, t.clone()) });
+twin!(#[fastrace::trace()] async fn amacro_p / amacro_t (a: u32, y: u32) -> Vec<u32> { here!(); log("m:start"); let v = vec![{ YieldN(y).await; a }, a + 1]; let _inner = fastrace::local::LocalSpan::enter_with_local_parent("after-await"); log("m:end"); v });
+twin!(#[fastrace::trace()] async fn aassert_p / aassert_t (a: u32, y: u32) -> u32 { here!(); assert!({ YieldN(y).await; a < 10 }, "never"); log(format!("{}", { YieldN(1).await; a })); a });
 twin!(#[fastrace::trace()] async fn anested_p / anested_t (a: u32, y: u32) -> u32 { here!(); let x = avalue_t(a, y).await; x + value_t(a) });
 
 #[async_trait::async_trait]
@@ -234,6 +238,8 @@ fn drive<F: Future>(f: F) -> (F::Output, u32) {
     loop {
         polls += 1;
         log(format!("poll#{polls}"));
+        let parent = PER_POLL_PARENT.with(|p| p.borrow().clone());
+        let _scope = parent.as_ref().map(|p| p.set_local_parent());
         if let Poll::Ready(v) = f.as_mut().poll(&mut cx) {
             return (v, polls);
         }
@@ -252,13 +258,19 @@ struct Run {
 }
 
 /// Runs `f` with or without a local parent and collects everything observable.
-fn run(with_parent: bool, in_local_span: bool, f: &dyn Fn() -> (String, u32)) -> Run {
+fn run(with_parent: bool, in_local_span: bool, per_poll: bool, f: &dyn Fn() -> (String, u32)) -> Run {
     LOG.with(|l| l.borrow_mut().clear());
     NAME.with(|l| l.borrow_mut().clear());
     REPORTS.lock().unwrap().clear();
-    let root = if with_parent { Span::root("ROOT", SpanContext::new(TraceId(0x15), SpanId(0))) } else { Span::noop() };
+    let root = std::sync::Arc::new(if with_parent { Span::root("ROOT", SpanContext::new(TraceId(0x15), SpanId(0))) } else { Span::noop() });
     let res;
-    {
+    if per_poll {
+        // like an executor driving `fut.in_span(root)`: the scope exists only during each poll (and
+        // for sync functions during the call)
+        PER_POLL_PARENT.with(|p| *p.borrow_mut() = Some(root.clone()));
+        res = catch_unwind(AssertUnwindSafe(|| f()));
+        PER_POLL_PARENT.with(|p| *p.borrow_mut() = None);
+    } else {
         let _g = root.set_local_parent();
         let _l = if in_local_span { Some(LocalSpan::enter_with_local_parent("CALLER")) } else { None };
         res = catch_unwind(AssertUnwindSafe(|| f()));
@@ -443,6 +455,8 @@ fn cases() -> Vec<Case> {
         }
     );
     async_case!(c, "agen", None, no_props, false, |a, y| agen_p(a, y, format!("g{a}")), agen_t(a, y, format!("g{a}")));
+    async_case!(c, "amacro", None, no_props, false, |a, y| amacro_p(a, y), amacro_t(a, y));
+    async_case!(c, "aassert", None, no_props, false, |a, y| aassert_p(a, y), aassert_t(a, y));
     async_case!(c, "anested", None, no_props, false, |a, y| anested_p(a, y), anested_t(a, y));
     async_case!(c, "S::aref", None, no_props, false, |a, y| async move { S { v: 3 }.aref_p(a, y).await }, async move { S { v: 3 }.aref_t(a, y).await });
     async_case!(c, "async_trait", Some("at-name"), |a: u32| vec![("a".to_string(), format!("{a}"))], false, |a, y| async move { S { v: 3 }.at_p(a, y).await }, async move { S { v: 3 }.at_t(a, y).await });
@@ -482,11 +496,15 @@ impl Out {
 
 fn check_all(out: &mut Out) {
     for c in cases() {
-        for (with_parent, in_local) in [(true, false), (true, true), (false, false)] {
+        for (with_parent, in_local, per_poll) in [(true, false, false), (true, true, false), (false, false, false), (true, false, true)] {
+            // a scope that only exists during each poll makes sense for the async twins
+            if per_poll && !c.is_async {
+                continue;
+            }
             out.evaluations += 1;
-            let p = run(with_parent, in_local, &*c.plain);
-            let t = run(with_parent, in_local, &*c.traced);
-            let ctx = format!("{} [{}]", c.id, if !with_parent { "no local parent" } else if in_local { "inside a local span" } else { "under a root" });
+            let p = run(with_parent, in_local, per_poll, &*c.plain);
+            let t = run(with_parent, in_local, per_poll, &*c.traced);
+            let ctx = format!("{} [{}]", c.id, if !with_parent { "no local parent" } else if in_local { "inside a local span" } else if per_poll { "local parent set around every poll" } else { "under a root" });
             out.classes.insert(format!("{}:{}:{}", c.id.split('(').next().unwrap(), with_parent, &t.outcome[..t.outcome.find(':').unwrap_or(2)]));
             if p.outcome != t.outcome {
                 out.violation(&c.id, "outcome", format!("{ctx}: plain {:?}, traced {:?}", p.outcome, t.outcome));
@@ -494,8 +512,9 @@ fn check_all(out: &mut Out) {
             if p.log != t.log {
                 out.violation(&c.id, "side-effects", format!("{ctx}: plain {:?}, traced {:?}", p.log, t.log));
             }
-            // (the `nested` twins call another annotated function, which records under the caller)
-            if !p.records.is_empty() && !c.id.contains("nested") {
+            // (the `nested` twins call another annotated function and `amacro` opens a local span of its own:
+            // those record under the caller in the unannotated twin)
+            if !p.records.is_empty() && !c.id.contains("nested") && !c.id.contains("amacro") {
                 out.violation(&c.id, "plain-recorded", format!("{ctx}: the unannotated twin recorded {:?}", p.records));
             }
             if !with_parent {
@@ -577,7 +596,7 @@ fn main() {
         "coverage": {
             "evaluations": out.evaluations,
             "distinct_nontrivial": out.classes.len(),
-            "rule": "twin functions generated from the same tokens with and without #[trace]: 16 sync shapes (value, name=, short_name, literal/format/escaped properties, early return, ?, panic, &mut mutation, by-value move, borrowed return, generic + where, locals with Drop, nested annotated call, unit, impl Trait return), 5 methods (&self, &mut self, self, properties over self fields, async &self), 11 async shapes (incl. enter_on_poll, ?, panic, early return, moves, &mut borrow, generic, nested), async_trait impl (in_span and enter_on_poll) and native async-in-trait; x arguments {0,1,2} x pending polls {0,1,2} x {under a root, inside a local span, no local parent}; distinct_nontrivial counts distinct (function, local parent?, outcome kind) classes",
+            "rule": "twin functions generated from the same tokens with and without #[trace]: 16 sync shapes (value, name=, short_name, literal/format/escaped properties, early return, ?, panic, &mut mutation, by-value move, borrowed return, generic + where, locals with Drop, nested annotated call, unit, impl Trait return), 5 methods (&self, &mut self, self, properties over self fields, async &self), 11 async shapes (incl. enter_on_poll, ?, panic, early return, moves, &mut borrow, generic, nested), async_trait impl (in_span and enter_on_poll) and native async-in-trait; x arguments {0,1,2} x pending polls {0,1,2} x {under a root, inside a local span, no local parent, local parent set anew around every poll (async twins)}; distinct_nontrivial counts distinct (function, local parent?, outcome kind) classes",
             "samples": [cases().iter().map(|c| c.id.clone()).step_by(17).collect::<Vec<_>>()],
             "exhaustive": true,
             "violation_list": out.violations,
